@@ -143,11 +143,26 @@ def _earlier_connection(c, L, P):
     hx = opts[c.choose(len(opts), 'earlier')]
     how = ['eof', 'error'][c.choose(2, 'earlier_end')]
     w0 = new_world()
-    w0.default_script = HsThenCuts(w0, hconn.server_stream(list(bytes.fromhex(hx))), 'one', end=how)
-    ws0 = L.WebSocket('ws://example.com/', compress=bool(P.get('negotiate_compression')))
+    if hx.startswith('Z'):
+        # the earlier connection NEGOTIATED permessage-deflate and received compressed (RSV1) messages: a compressed text, a compressed
+        # binary and the first fragment of an unfinished compressed message (abstract zlib of C06), then the rest of the hex string
+        from .deflate import RefPeerDeflater
+        d0 = RefPeerDeflater(c, 15, False)
+        st0 = []
+        for first, body in ((0xC1, b'hello hello'), (0xC2, b'hello again'), (0x41, b'hello')):
+            m = list(d0.compress(list(body)))
+            st0 += [first, len(m)] + m
+        st0 += list(bytes.fromhex(hx[1:]))
+        w0.default_script = HsThenCuts(w0, hconn.server_stream(st0, b'Sec-WebSocket-Extensions: permessage-deflate\r\n'), 'one', end=how)
+        ws0 = L.WebSocket('ws://example.com/', compress=True)
+    else:
+        w0.default_script = HsThenCuts(w0, hconn.server_stream(list(bytes.fromhex(hx))), 'one', end=how)
+        ws0 = L.WebSocket('ws://example.com/', compress=bool(P.get('negotiate_compression')))
     rec0 = hconn.drive(w0, ws0, dict(poll=1e9, ping_rate=0, ping_timeout=None, close_timeout=None))
     if rec0.budget is not None:
         raise EngineLimit('loop budget in the earlier connection')
+    if hx.startswith('Z') and 'text' not in rec0.names():
+        raise EngineLimit('the earlier compressed connection did not deliver its compressed text: %r' % rec0.names())
     same = c.choose(2, 'earlier_same_object')
     return ':earlier-%s-%s-%s' % (hx or 'none', how, 'same-object' if same else 'other-object'), (ws0 if same else None)
 
